@@ -172,6 +172,18 @@ def sameFields (a b : List (Bytes × Bytes)) : Bool := sortFields a == sortField
 def holdsApply (rs : List Rule) (h obs : HMap) : Bool :=
   sameFields (fieldsOf obs) (specRules rs (fieldsOf h))
 
+/-- One rule step evaluated on what the implementation did: `before`/`after` are the header maps
+    around the application of `r`.  Values clause: the field lines change as documented; spelling
+    clause of `%name`: if the field existed it is now spelt exactly `name`. -/
+def holdsStep (r : Rule) (before after : HMap) : Bool :=
+  sameFields (fieldsOf after) (specRule (fieldsOf before) r) &&
+  (match r with
+   | .rename n =>
+     if (fieldsOf before).any (fun f => f.1 == lower n) then
+       after.any (fun e => e.1 == n) && !after.any (fun e => e.1 != n && lower e.1 == lower n)
+     else true
+   | _ => true)
+
 /-- Known-finding classes (section 6 of DESIGN.md, F9): inputs on which the unchanged code is
     known to deviate from the documented meaning. -/
 def renameSeen (rs : List Rule) : Bool := rs.any (fun r => match r with | .rename _ => true | _ => false)
